@@ -163,6 +163,12 @@ partial def assign (t : Ty) (off : Nat) (v : VIn) (b : Buf) : Buf × Option Err 
       else
         let b := wr b off (le 8 cur)
         (wr b (off + 8) (bs ++ List.replicate (cur - 8 - bs.length) 0), none)
+    | .cap n =>
+      -- an integer (capacity) assigned to an existing string: fits iff n + 8 <= stored size; the data area is zeroed
+      if n + 8 > cur then (b, some .value)
+      else
+        let b := wr b off (le 8 cur)
+        (wr b (off + 8) (List.replicate (cur - 8) 0), none)
     | _ => (b, some .value)
   | .ref _ | .unionref .. => (toBuffer t v off b, none)
   | .struct _ fs =>
